@@ -99,7 +99,7 @@ macro_rules! index_new {
                 }
                 f += 1;
             }
-            kani::cover!(has_end && e == T as u64, "end at tip");
+            kani::cover!(T == 0 || (has_end && e == T as u64), "end at tip");
             kani::cover!(has_end && e > T as u64, "end above tip");
             kani::cover!(T == 0 || (has_end && e < T as u64), "end below tip");
             kani::cover!(!has_end && start == 0, "whole chain");
